@@ -22,20 +22,23 @@ from . import builders as B
 ID = "C02"
 RULE = ("one world per seed: chain (7 models x uniform/fixed/geometric/probability-step small grids) x sampling method (bst, huffman, "
         "inversion, adapted1d; alias/table attempted: they raise under numpy 2 and are counted as probes), 40-120 "
-        "operations (draw / batch / pickle round trip / deepcopy / fresh sampler) on up to 6 copies with uniforms from a "
+        "operations (draw / batch / pickle round trip / deepcopy / fresh sampler / sampler of another model on the same grid) on up to 6 copies with uniforms from a "
         "14-value pool, optional small-memo knob, then a lattice sweep. non-trivial = >=1 snapshot operation followed by "
         "a draw of an already seen uniform; distinct = hash(model, grid, method, op kinds sequence)")
-REAL = ["rpylib.distribution.samplingfactory", "rpylib.distribution.variate.*", "rpylib.distribution.pairing",
+REAL = ["rpylib.process.markovchain.markovchainlevycopula (constructor), rpylib.model.levycopulamodel (mass)",
+        "rpylib.distribution.samplingfactory", "rpylib.distribution.variate.*", "rpylib.distribution.pairing",
         "rpylib.process.markovchain.markovchain (constructor)", "grids, models",
         "multiprocess.reduction.ForkingPickler for the snapshot operation"]
 STUB = ["uniforms scripted at the RNG seam (numpy uniform / random.getrandbits)", "gmpy2.qdiv, tqdm"]
 ASSUMPTIONS = ["target probabilities = the chain's own rate vector / intensity (C01 trusted)",
                "law resolution: a state's frequency is decided to 2(K+1)/M only (M = 2^16 quick, 2^19 thorough)",
-               "n-d samplers (copula chains) are not covered by this check"]
+               "n-d samplers: 2-d and 3-d Levy-copula chains on small fixed grids (Clayton / independent copulas, "
+               "finite-variation margins); their law is decided to 2(K+1)/2^14"]
 TIERS = {
     "quick": {"worlds": 400, "wall": 520, "shrink_budget": 60, "sweep": 1 << 16,
               "required_probes": ["c02.ops_done", "c02.repeat_after_pickle", "c02.repeat_after_deepcopy",
-                                  "c02.small_cache_world", "c02.sweep_done", "c02.fresh_compared"]},
+                                  "c02.small_cache_world", "c02.sweep_done", "c02.fresh_compared", "c02.nd_ops_done",
+                                  "c02.nd_sweep_done", "c02.nd_repeat_after_copy"]},
     "thorough": {"worlds": 6000, "wall": 3300, "shrink_budget": 150, "sweep": 1 << 19,
                  "required_probes": ["c02.ops_done", "c02.repeat_after_pickle", "c02.repeat_after_deepcopy",
                                      "c02.small_cache_world", "c02.sweep_done", "c02.fresh_compared"]},
@@ -44,6 +47,29 @@ TIERS = {
 
 def generate(seed, tier="quick"):
     r = sub_rng(seed, "c02.scenario")
+    if r.random() < 0.25:
+        # several dimensions: samplers of a Levy-copula chain (scenarios.c02nd)
+        from . import c02nd
+
+        proc = c02nd.generate_process(r)
+        ops, ncopies = [], 1
+        for _ in range(r.choice([30, 60])):
+            k = r.random()
+            if k < 0.55:
+                ops.append(["draw", r.randrange(ncopies), r.randrange(14)])
+            elif k < 0.75:
+                ops.append(["batch", r.randrange(ncopies), [r.randrange(14) for _ in range(r.choice([2, 3, 7]))]])
+            elif k < 0.85 and ncopies < 5:
+                ops.append(["pickle", r.randrange(ncopies)])
+                ncopies += 1
+            elif k < 0.95 and ncopies < 5:
+                ops.append(["deepcopy", r.randrange(ncopies)])
+                ncopies += 1
+            else:
+                ops.append(["fresh", r.randrange(14)])
+        return {"world_seed": seed, "process": proc, "ops": ops,
+                "small_cache": r.choice([None, None, 3, 8]) if proc["method"] == "inversion" else None,
+                "useed": r.randrange(10 ** 9), "sweep": min(TIERS[tier]["sweep"], 1 << 14)}
     model = r.choice(B.CHAIN_MODELS)
     gk = r.choice(["uniform", "fixed", "geometric", "probstep"])
     grid = {"uniform": {"kind": "uniform", "h": r.choice([0.05, 0.1, 0.08])},
@@ -66,8 +92,11 @@ def generate(seed, tier="quick"):
         elif k < 0.95 and ncopies < 6:
             ops.append(["deepcopy", r.randrange(ncopies)])
             ncopies += 1
-        else:
+        elif r.random() < 0.5:
             ops.append(["fresh", r.randrange(14)])
+        else:
+            # a sampler of ANOTHER model on the same grid specification is used in between (shared process-wide state?)
+            ops.append(["foreign", r.choice([m for m in B.CHAIN_MODELS if m != model]), [r.randrange(14) for _ in range(5)]])
     return {"world_seed": seed, "process": {"kind": "chain", "model": model, "grid": grid, "method": method},
             "ops": ops, "small_cache": r.choice([None, None, 2, 3, 8]) if method == "inversion" else None,
             "useed": r.randrange(10 ** 9), "sweep": TIERS[tier]["sweep"]}
@@ -95,6 +124,8 @@ def shrink_candidates(sc):
                 yield mod(ops=cand)
     if sc["small_cache"] is not None:
         yield mod(small_cache=None)
+    if sc["process"]["kind"] == "copula":
+        return
     if sc["process"]["grid"].get("kind") != "fixed":
         c = mod()
         c["process"]["grid"] = {"kind": "fixed", "h": 0.1, "n": 6}
@@ -111,6 +142,8 @@ def _renorm(ops):
     for op in ops:
         op = copy.deepcopy(op)
         if op[0] in ("draw", "batch", "pickle", "deepcopy"):
+            if not isinstance(op[1], int):
+                continue
             if op[1] >= ncopies:
                 op[1] = op[1] % ncopies
         if op[0] in ("pickle", "deepcopy"):
@@ -120,6 +153,11 @@ def _renorm(ops):
 
 
 def execute(wd, sc):
+    if sc["process"]["kind"] == "copula":
+        from . import c02nd
+
+        wd.probes["c02.nd_world"] += 1
+        return c02nd.execute(wd, sc)
     from rpylib.distribution.samplingfactory import create_q_vector
 
     V, errors = [], []
@@ -268,6 +306,17 @@ def execute(wd, sc):
                 samplers.append(copy.deepcopy(samplers[ci]))
                 lineage.append("deepcopy<" + lineage[ci])
                 wd.faults["snapshot.restore.deepcopy"] += 1
+            elif kind == "foreign":
+                spec2 = dict(sc["process"], model=op[1])
+                try:
+                    other = B.build_process(spec2).sampling
+                    do_sample(other, [pool[i] for i in op[2]] + [0.3, 0.6, 0.9, 0.97, 0.03], f"op {oi} foreign sampler")
+                    wd.probes["c02.foreign_sampler_used"] += 1
+                    wd.faults["history.foreign_sampler"] += 1
+                except HarnessError:
+                    raise
+                except Exception:
+                    wd.probes["c02.foreign_sampler_raised"] += 1
             elif kind == "fresh":
                 u = pool[op[1]]
                 fresh = B.build_process(sc["process"]).sampling
